@@ -764,8 +764,9 @@ def obs_empty_multi_field(case, tag):
 OBSERVATIONS = {'empty-multi-field-vs-default': obs_empty_multi_field}
 
 KNOWN_PREDICATES = {
-    'C19-to_edgeql-unparseable-string': pred_unparseable_string,
-    'C19-to_edgeql-memory': pred_edgeql_memory,
+    # (C19-to_edgeql-memory and C19-to_edgeql-unparseable-string were fixed in /repo, commits 3120b56 and
+    #  e926075+28c4a3e: they suppress nothing any more -- the round trip of to_edgeql text through the
+    #  repo grammar alarms if they return)
     'C19-json-memory-negative': pred_json_memory,
     'C19-to_edgeql-int64': pred_edgeql_int64,
 }
